@@ -111,12 +111,17 @@ def extract(repo=None, cfg="dev", target_dir=None, use_cache=True):
     os.makedirs(os.path.join(CACHE, "facts"), exist_ok=True)
     suffix = os.environ.get("BL_TARGET_SUFFIX", "")
     target_dir = target_dir or os.path.join(CACHE, "target-" + cfg + suffix)
-    os.makedirs(target_dir, exist_ok=True)
+    base_target = os.path.join(CACHE, "target-" + cfg)
     lock = open(os.path.join(CACHE, "extract.%s%s.lock" % (cfg, suffix)), "w")
     fcntl.flock(lock, fcntl.LOCK_EX)
     try:
         if use_cache and all(os.path.exists(w) for w in want):
             return out
+        if not os.path.isdir(target_dir) and target_dir != base_target and os.path.isdir(base_target):
+            # a worker's private target dir starts as a copy of the main one (dependencies
+            # are already checked there), instead of rebuilding them cold
+            shutil.copytree(base_target, target_dir, symlinks=True)
+        os.makedirs(target_dir, exist_ok=True)
         t0 = time.time()
         # cargo's freshness cache would skip the wrapper: drop the member's fingerprints
         fp = os.path.join(target_dir, "debug", ".fingerprint")
